@@ -18,6 +18,20 @@ CHECKS = {
              "placements that leave the frame; the search evaluates the property on the implementation with an independent bit-sum oracle.",
              note=TB + "Model: coq/model/Codec.v. struct's IEEE conversion is trusted (applied to both sides); PDU-container payload walking is not modelled (length rule covered by the gate model + metamorphic identity).",
              technique="Coq proof over a Gallina model + model/implementation correspondence + oracle-based search", ref="5/C01"),
+ "C02": dict(text="Theorems (coq/props/C02.v) prove for EVERY frame length, every layout of pairwise non-overlapping signals (any widths, byte "
+             "orders, signedness, float32/64), every subset supplied and every representable value: the encoder is total, the payload has the "
+             "frame's length, each supplied signal decodes back to its value, every foreign bit is 0, and re-encoding decoded values reproduces "
+             "any payload on covered bits. Tie: differential run of Frame.encode against the model (incl. overlapping layouts); search with "
+             "decode/encode identities evaluated on the implementation.",
+             note=TB + "Model: coq/model/Codec.v. Float values are handled as bit patterns (struct trusted); label inputs belong to C04.",
+             technique="Coq proof over a Gallina model + model/implementation correspondence + oracle-based search", ref="5/C02"),
+ "C09": dict(text="Theorems (coq/props/C09.v) prove for ALL integers: constructibility iff in the 11/29-bit range, lossless compound form, the "
+             "J1939 getters equal the arithmetic fields and recompose to the identifier, each setter changes only its field, the PGN rule of "
+             "J1939-21 (PS counted iff PF >= 240), PGN independence of priority/source/destination, and the frame CanMatrix.decode selects in any "
+             "mixed matrix (exact id, else first 29-bit frame with the same PGN, else nothing; never an exception). Tie: differential run (all 2^11 "
+             "standard ids, every field exhaustively in several contexts, boundary integers, generated mixed matrices).",
+             note=TB + "Model: coq/model/ArbId.v (after the fix: commit dda9667 in /repo). frame_by_id's memo is modelled as a scan here (C10 covers the memo).",
+             technique="Coq proof over a Gallina model (bit-mask lemmas -> div/mod arithmetic) + model/implementation correspondence", ref="5/C09"),
 }
 NOT_YET = {}
 props = [json.loads(l) for l in open(os.path.join(V, "properties.jsonl"))]
